@@ -3,6 +3,9 @@ import AsynqModel.Theorems.C06c
 /-!
   Theorems about the context-history model WITH real with-blocks (Lib/ContextsWith.lean; second audit of the core, item 2).
   The model describes the code as it is: `AsyncTask._computed` lets an exception of `generator.close()` escape.
+  Two routes into that (both reproduced on the real library by family `ctxwith`, ONE open C08 finding, one repair):
+  two raising hooks (`C06w_close_escape_counterexample`), or one raising hook and a body that ignores GeneratorExit
+  (`C06w_ignored_generatorexit_counterexample`).
 -/
 namespace AsynqModel.Contexts
 
@@ -20,14 +23,37 @@ theorem C06w_close_escape_counterexample :
     (finalStateW (repairedCfg false) defs (initW defs 2 2) ops).dirty = true := by
   decide
 
-/-- failing a task that has no open with-block lets nothing escape (the histories of Lib/Contexts.lean, where every block
-    is operated by hand, are this case) -/
-theorem C06w_no_open_block_no_escape (cfg : Cfg) (defs : List Kind) (w : StW) (e : Exc) (h : w.blocks = []) :
+/-- **the sibling route, machine-checked for the model** (third audit of the core, item 2; reproduced on the real library by
+    the cases of family `ctxwith` with `gxs = 1`): ONE raising hook and a body that ignores GeneratorExit.
+    `with Plain(0): try: yield item / except GeneratorExit: yield`, resume() of 0 raises at the continuation: the task's
+    outcome is resume's exception, `generator.close()` raises RuntimeError('generator ignored GeneratorExit') (`Exc.other`)
+    through the with-block (its `__exit__` calls pause() of 0: calls R0 P0), the RuntimeError leaves the scheduler, whose
+    task stack stays dirty.  No with-block is needed (second conjunct: no context at all is open, a NonAsyncContext
+    operated by hand fails the suspension). -/
+theorem C06w_ignored_generatorexit_counterexample :
+    let defs : List Kind := [.plain [2] []]
+    let ops : List Op := [.enter 0, .suspend, .continue_]
+    let w0 : StW := { initW defs 2 1 with swallowsGX := true }
+    (specW (runW (repairedCfg false) defs w0 ops) = false ∧
+     (runW (repairedCfg false) defs w0 ops).map (fun ob => (ob.calls.map unflag, ob.esc, ob.status)) =
+       [([(true, 0)], .none, .none), ([(false, 0)], .none, .none), ([(true, 0), (false, 0)], .exc .other, .err (.hookR 0))] ∧
+     (finalStateW (repairedCfg false) defs w0 ops).dirty = true) ∧
+    (let defs' : List Kind := [.na]
+     let w1 : StW := { initW defs' 2 0 with swallowsGX := true }
+     specClauseW (runW (repairedCfg false) defs' w1 [.enter 0, .suspend]) = "hook-error-escapes-scheduler@suspend" ∧
+     (finalStateW (repairedCfg false) defs' w1 [.enter 0, .suspend]).blocks = []) := by
+  decide
+
+/-- failing a task that has no open with-block and whose body does not ignore GeneratorExit lets nothing escape (the
+    histories of Lib/Contexts.lean, where every block is operated by hand, are this case); the hypothesis `hg` is needed:
+    second conjunct of `C06w_ignored_generatorexit_counterexample` -/
+theorem C06w_no_open_block_no_escape (cfg : Cfg) (defs : List Kind) (w : StW) (e : Exc) (h : w.blocks = [])
+    (hg : w.swallowsGX = false) :
     (acceptErrorW cfg defs w e).2.2 = none := by
   unfold acceptErrorW
   split
   · rfl
-  · simp [h, unwind]
+  · simp [h, hg, unwind]
 
 theorem pauseCtx_reg (defs : List Kind) (s : St) (c : Nat) : (pauseCtx defs s c).1.reg = s.reg := by
   unfold pauseCtx
@@ -71,8 +97,8 @@ theorem C06w_unwind_only_unregisters (cfg : Cfg) (defs : List Kind) (blocks : Li
     · rename_i s' cl x hne heq
       exact key c (by rw [heq]; exact ih s' (calls ++ cl) fl hc)
 
-/-- with the proposed repair (`closeSwallows`: `_computed` keeps what `generator.close()` raises to itself) NO history lets
-    an exception out of a suspension or a continuation: all contexts, all hooks, all histories, from any state -/
+/-- with `closeSwallows` the model's `acceptErrorW` returns no escape: this is the line `if w.closeSwallows then none else esc`
+    read back (BY CONSTRUCTION) -/
 theorem C06w_acceptErrorW_swallows (cfg : Cfg) (defs : List Kind) (w : StW) (e : Exc) (h : w.closeSwallows = true) :
     (acceptErrorW cfg defs w e).2.2 = none ∧ (acceptErrorW cfg defs w e).1.closeSwallows = true := by
   unfold acceptErrorW
@@ -168,9 +194,13 @@ theorem stepCoreW_swallows (cfg : Cfg) (defs : List Kind) (w : StW) (op : Op) (h
       subst h1a
       exact ⟨h1b, fun _ e => by simp [escOfOpt]⟩
 
-/-- **the proposed repair is sufficient, for ALL histories**: when `AsyncTask._computed` keeps what `generator.close()` raises
-    to itself (`closeSwallows`, after-fix/close-raise.diff), no suspension and no continuation lets an exception out of the
-    scheduler - any contexts, any scripts of raising hooks, any history, from any state -/
+/-- TRUE BY CONSTRUCTION OF THE MODEL (third audit of the core, item 2): the only place where the with-block model produces an
+    escape is `if w.closeSwallows then none else esc` in `acceptErrorW` (Lib/ContextsWith.lean), so with `closeSwallows` no
+    history of the MODEL lets an exception out of a suspension or continuation - also when the body ignores GeneratorExit
+    (`swallowsGX`).  What this says about the library: in the with-block model `generator.close()` is the only source of an
+    escape, nothing more.  That proposed-fixes/C08-close-raise.diff cures the real library on the generated histories is a
+    matter of RUNNING it: tools/ctxwith_afterfix.py (family `ctxwith` against a patched clone, expectation = this variant of
+    the model). -/
 theorem C06w_repaired_never_escapes (cfg : Cfg) (defs : List Kind) (w : StW) (ops : List Op) (h : w.closeSwallows = true) :
     specW (runW cfg defs w ops) = true := by
   induction ops generalizing w with
@@ -203,6 +233,17 @@ theorem C06w_alternate_needs_no_raise :
     ∃ w, watchRun defs 1 {} obs = .ok w ∧ w.stopped = false ∧
       altRun false (onCtx 0 (obs.flatMap (·.calls))) ≠ some (resumedNow w 0) := by
   refine ⟨_, rfl, ?_, ?_⟩ <;> decide
+
+/-- the repaired model on the history of the sibling counterexample: nothing escapes, the scheduler is not left dirty -/
+example :
+    let defs : List Kind := [.plain [2] []]
+    let ops : List Op := [.enter 0, .suspend, .continue_]
+    let w0 : StW := { initW defs 2 1 with swallowsGX := true, closeSwallows := true }
+    specW (runW (repairedCfg false) defs w0 ops) = true ∧
+    ((runW (repairedCfg false) defs w0 ops).getLast?.map fun ob => (ob.calls.map unflag, ob.esc, ob.status)) =
+      some ([(true, 0), (false, 0)], .none, .err (.hookR 0)) ∧
+    (finalStateW (repairedCfg false) defs w0 ops).dirty = false := by
+  decide
 
 /-- non-vacuity: the repaired model on the history of the counterexample - same hook calls, the task fails with resume's
     exception, nothing escapes, the scheduler is not left dirty -/
